@@ -1465,6 +1465,15 @@ func (r *Raft) InstallSnapshot(
 	// and last term, discard the log through the last index and reply.
 	if entry, _ := r.log.GetEntry(request.LastIncludedIndex); entry != nil &&
 		entry.Term == request.LastIncludedTerm {
+		// The snapshot only contains committed operations and the log matches the log of the leader up
+		// to the last included index, so all entries up to the last included index are committed. The
+		// commit index may be behind, e.g. after a restart, and the leader does not send entries before
+		// this request has been answered - the operations would never be applied otherwise.
+		if r.commitIndex < request.LastIncludedIndex {
+			r.commitIndex = request.LastIncludedIndex
+			r.applyCond.Broadcast()
+		}
+
 		// Wait for all operations up to last included index have been applied before compacting the log.
 		for r.state != Shutdown && r.lastApplied < request.LastIncludedIndex {
 			r.applyCond.Wait()
